@@ -72,18 +72,37 @@ func c16class(s string) string {
 	return "plain"
 }
 
-func c16body(secret string) func() {
+// second connections of the same Component (what StreamManager does after a loss): ids and replies of the
+// second stream
+var c16ids2 = []string{"second-stream-id", "b3c2-uuid-4f", ""}
+var c16replies2 = []string{"handshake", "error-not-authorized", "message", "close"}
+
+func c16body(secret string, rounds int) func() {
 	return func() {
-		id := c16ids[vrt.ChooseFree("streamid", len(c16ids))]
-		reply := c16replies[vrt.ChooseFree("reply", len(c16replies))]
-		hx.Symbol("reply=" + reply)
+		ids := []string{c16ids[vrt.ChooseFree("streamid", len(c16ids))]}
+		replies := []string{c16replies[vrt.ChooseFree("reply", len(c16replies))]}
+		if rounds == 2 {
+			// the first stream: a small alphabet (established then closed by us, refused, cut)
+			ids[0] = []string{"first-stream-id", "a<b"}[vrt.ChooseFree("streamid", 2)]
+			replies[0] = []string{"handshake", "error-not-authorized", "close"}[vrt.ChooseFree("reply", 3)]
+			ids = append(ids, c16ids2[vrt.ChooseFree("streamid2", len(c16ids2))])
+			replies = append(replies, c16replies2[vrt.ChooseFree("reply2", len(c16replies2))])
+		}
+		for _, r := range replies {
+			hx.Symbol("reply=" + r)
+		}
 		w := vnet.NewWorld()
 		var hs []string
 		var srvUnits []string
 		probeSent := false
+		id, reply := ids[0], replies[0]
 		w.Listen("example.org:5347", &vnet.Listener{Accept: func(k int, c *vnet.Conn) (func(), error) {
 			s := newSrvConn(k, c)
 			return func() {
+				id, reply := id, reply
+				if k < len(ids) {
+					id, reply = ids[k], replies[k]
+				}
 				u := s.read()
 				if u.kind == "prolog" {
 					u = s.read()
@@ -141,50 +160,65 @@ func c16body(secret string) func() {
 			return
 		}
 		comp.SetHandler(func(e Event) error { events = append(events, e.State.state); return nil })
-		err = comp.Connect()
-		vrt.WaitIdle()
-		state := comp.CurrentState.getState()
-		vrt.Log("id=%q reply=%s err=%v state=%d routed=%v hs=%v", id, reply, err != nil, state, routed, hs)
-		in := fmt.Sprintf("streamid=%q secret=%q reply=%s", id, secret, reply)
-		if len(hs) != 1 {
-			vrt.Fail("C16|no-handshake-sent", "%s: handshake elements %v, other %v", in, hs, srvUnits)
-			return
-		}
-		// independent digest
-		sum := sha1.Sum([]byte(id + secret))
-		want := hex.EncodeToString(sum[:])
-		got := hs[0]
-		i, j := strings.Index(got, ">"), strings.LastIndex(got, "</")
-		text := ""
-		if i >= 0 && j > i {
-			text = html.UnescapeString(got[i+1 : j])
-		}
-		if text != want {
-			vrt.Fail("C16|digest-wrong|id="+c16class(id)+"|secret="+c14strClass(secret), "%s: handshake text %q, want sha1(id+secret) = %q", in, text, want)
-		}
-		est := state == StateSessionEstablished
-		annEst := false
-		for _, s := range events {
-			if s == StateSessionEstablished {
-				annEst = true
+		for round := 0; round < rounds; round++ {
+			id, reply = ids[round], replies[round]
+			hs, routed, events, probeSent = nil, nil, nil, false
+			err = comp.Connect()
+			vrt.WaitIdle()
+			state := comp.CurrentState.getState()
+			vrt.Log("id=%q reply=%s err=%v state=%d routed=%v hs=%v", id, reply, err != nil, state, routed, hs)
+			in := fmt.Sprintf("streamid=%q secret=%q reply=%s", id, secret, reply)
+			which := ""
+			if round > 0 {
+				in = fmt.Sprintf("second connection of the component (first: streamid=%q reply=%s) streamid=%q secret=%q reply=%s", ids[0], replies[0], id, secret, reply)
+				which = "|second-connection"
 			}
-		}
-		if reply == "handshake" {
-			if err != nil || !est {
-				vrt.Fail("C16|handshake-not-established", "%s: err=%v state=%d", in, err, state)
+			if len(hs) != 1 {
+				vrt.Fail("C16|no-handshake-sent", "%s: handshake elements %v, other %v", in, hs, srvUnits)
+				return
 			}
-			if probeSent && (len(routed) != 1 || routed[0] != "message:probe:probe") {
-				vrt.Fail("C16|stanza-not-routed-after-handshake", "%s: routed %v", in, routed)
+			// independent digest
+			sum := sha1.Sum([]byte(id + secret))
+			want := hex.EncodeToString(sum[:])
+			got := hs[0]
+			i, j := strings.Index(got, ">"), strings.LastIndex(got, "</")
+			text := ""
+			if i >= 0 && j > i {
+				text = html.UnescapeString(got[i+1 : j])
 			}
-		} else {
-			if err == nil {
-				vrt.Fail("C16|success-without-handshake|reply="+reply, "%s: Connect returned nil", in)
+			if text != want {
+				vrt.Fail("C16|digest-wrong|id="+c16class(id)+"|secret="+c14strClass(secret)+which, "%s: handshake text %q, want sha1(id+secret) = %q", in, text, want)
 			}
-			if est || annEst {
-				vrt.Fail("C16|established-without-handshake|reply="+reply, "%s: state=%d events=%v", in, state, events)
+			est := state == StateSessionEstablished
+			annEst := false
+			for _, s := range events {
+				if s == StateSessionEstablished {
+					annEst = true
+				}
 			}
-			if len(routed) != 0 {
-				vrt.Fail("C16|routed-without-handshake|reply="+reply, "%s: routed %v", in, routed)
+			if reply == "handshake" {
+				if err != nil || !est {
+					vrt.Fail("C16|handshake-not-established", "%s: err=%v state=%d", in, err, state)
+				}
+				if probeSent && (len(routed) != 1 || routed[0] != "message:probe:probe") {
+					vrt.Fail("C16|stanza-not-routed-after-handshake", "%s: routed %v", in, routed)
+				}
+			} else {
+				if err == nil {
+					vrt.Fail("C16|success-without-handshake|reply="+reply, "%s: Connect returned nil", in)
+				}
+				if est || annEst {
+					vrt.Fail("C16|established-without-handshake|reply="+reply, "%s: state=%d events=%v", in, state, events)
+				}
+				if len(routed) != 0 {
+					vrt.Fail("C16|routed-without-handshake|reply="+reply, "%s: routed %v", in, routed)
+				}
+			}
+			if round+1 < rounds {
+				if err == nil {
+					comp.Disconnect()
+				}
+				vrt.WaitIdle()
 			}
 		}
 	}
@@ -194,7 +228,17 @@ func TestVerifC16(t *testing.T) {
 	var scs []hx.Scenario
 	secrets := c14strings
 	for i, sec := range secrets {
-		scs = append(scs, hx.Scenario{Name: fmt.Sprintf("secret#%d=%s", i, c14strClass(sec)), Opt: vrt.Options{Bound: thoroughBound(2)}, Body: c16body(sec),
+		scs = append(scs, hx.Scenario{Name: fmt.Sprintf("secret#%d=%s", i, c14strClass(sec)), Opt: vrt.Options{Bound: thoroughBound(2)}, Body: c16body(sec, 1),
+			Verdict: func(e *vrt.Exec) {
+				if e.Panic != nil {
+					vrt.Fail("C16|panic", "%s %s", e.Panic.Value, trimStack(e.Panic.Stack))
+				} else if e.Deadlock {
+					vrt.Fail("C16|hang", "blocked: %s", e.BlockedSummary())
+				}
+			}})
+	}
+	for i, sec := range []string{"s3cr3t", "é<&>"} {
+		scs = append(scs, hx.Scenario{Name: fmt.Sprintf("reconnect/secret#%d", i), Opt: vrt.Options{Bound: thoroughBound(1)}, Body: c16body(sec, 2),
 			Verdict: func(e *vrt.Exec) {
 				if e.Panic != nil {
 					vrt.Fail("C16|panic", "%s %s", e.Panic.Value, trimStack(e.Panic.Stack))
